@@ -33,6 +33,13 @@ def _clf(missing_label, classes, seed=0):
     return ParzenWindowClassifier(classes=list(classes), missing_label=missing_label, random_state=seed)
 
 
+def _clf_mean(missing_label, classes, seed=0):
+    from skactiveml.classifier import ParzenWindowClassifier
+
+    return ParzenWindowClassifier(classes=list(classes), missing_label=missing_label, random_state=seed,
+                                  metric_dict={"gamma": "mean"})
+
+
 def _sk_clf(missing_label, classes, seed=0):
     from sklearn.linear_model import LogisticRegression
 
@@ -111,6 +118,8 @@ def model_kwargs(entry, missing_label, classes, seed=0, variant=0):
     if m is None:
         return {}
     if m in ("clf", "clf_embed"):
+        if variant == 3:      # a kernel classifier whose bandwidth is derived from the training data
+            return {"clf": _clf_mean(missing_label, classes, seed)}
         return {"clf": (_clf, _sk_clf, _tree_clf)[variant % 3](missing_label, classes, seed)}
     if m == "clf_freq":
         return {"clf": _clf(missing_label, classes, seed)}
